@@ -52,7 +52,7 @@ def ISEVEN(number):
 def ISODD(number):
     if not isinstance(number, number_types):
         return error.VALUE
-    return (int(number) & 1)
+    return (int(number) & 1) == 1  # a logical, like ISEVEN
 
 
 @dispatcher.register_for('ISTEXT')
